@@ -104,8 +104,9 @@ Print Assumptions C03_code_all_for_negative_n.
 (* Mplus (micro/disj.go) and Bind (micro/conj.go) as translated on every run are the model's mplus and bindk: whatever they
    return is the model's stream; they return it whenever the recursion budget covers the run of mature cells at the front
    (and no cell there is the model's error cell); they never panic; and an immature cell is NOT run when it is merely
-   inspected - the new suspension wraps its thunk - which is what the fairness lemmas above rest on.  A goal is seen by
-   Bind as the pair (how to run it on a state, how the model names the suspended Bind over a thunk). *)
+   inspected - the new suspension wraps its thunk - which is what the fairness lemmas above rest on.  A goal is seen by the
+   stream operators as a GoLiteS.sgoal: how to run it on a state, and how the (defunctionalised) model names the suspended
+   Bind of it over a thunk and the suspension of the goal itself at a state. *)
 Require GMK.StreamOpsSpec.
 Theorem C03_code_mplus_is_model : forall ds uf f s1 s2,
   (forall r, StreamGen.gs_Mplus f ds uf s1 s2 = GoLite.Ret r -> r = mplus s1 s2) /\
@@ -116,10 +117,10 @@ Proof. exact (fun ds uf f s1 s2 => conj (StreamOpsSpec.gs_Mplus_sound ds uf f s1
 Print Assumptions C03_code_mplus_is_model.
 
 Theorem C03_code_bind_is_model : forall ds uf B f s g,
-  (forall r, StreamGen.gs_Bind f ds uf s g = GoLite.Ret r -> r = bindk (fst g) (snd g) s) /\
+  (forall r, StreamGen.gs_Bind f ds uf s g = GoLite.Ret r -> r = bindk (GoLiteS.sg_run g) (GoLiteS.sg_bind g) s) /\
   (StreamOpsSpec.ends_err s = false ->
-   (forall a, In a (StreamOpsSpec.heads s) -> StreamOpsSpec.ends_err (fst g a) = false /\ (StreamOpsSpec.spine (fst g a) < B)%nat) ->
-   (StreamOpsSpec.spine s + B < f)%nat -> StreamGen.gs_Bind f ds uf s g = GoLite.Ret (bindk (fst g) (snd g) s)) /\
+   (forall a, In a (StreamOpsSpec.heads s) -> StreamOpsSpec.ends_err (GoLiteS.sg_run g a) = false /\ (StreamOpsSpec.spine (GoLiteS.sg_run g a) < B)%nat) ->
+   (StreamOpsSpec.spine s + B < f)%nat -> StreamGen.gs_Bind f ds uf s g = GoLite.Ret (bindk (GoLiteS.sg_run g) (GoLiteS.sg_bind g) s)) /\
   StreamGen.gs_Bind f ds uf s g <> GoLite.Panic.
 Proof. exact (fun ds uf B f s g => conj (StreamOpsSpec.gs_Bind_sound ds uf f s g)
                (conj (StreamOpsSpec.gs_Bind_complete ds uf B f s g) (StreamOpsSpec.gs_Bind_never_panics ds uf f s g))). Qed.
@@ -127,25 +128,34 @@ Print Assumptions C03_code_bind_is_model.
 
 Theorem C03_code_suspensions_not_run : forall ds uf f th s2 g,
   StreamGen.gs_Mplus (S f) ds uf (SSusp th) s2 = GoLite.Ret (SSusp (TMplus s2 th)) /\
-  StreamGen.gs_Bind (S f) ds uf (SSusp th) g = GoLite.Ret (SSusp (snd g th)).
+  StreamGen.gs_Bind (S f) ds uf (SSusp th) g = GoLite.Ret (SSusp (GoLiteS.sg_bind g th)).
 Proof. exact (fun ds uf f th s2 g => conj (StreamOpsSpec.gs_Mplus_lazy ds uf f th s2) (StreamOpsSpec.gs_Bind_lazy ds uf f th g)). Qed.
 Print Assumptions C03_code_suspensions_not_run.
 
 (* the goal constructors Disj (micro/disj.go) and Conj (micro/conj.go) as translated: on goals seen as (run, name-of-suspended-Bind)
    pairs they return the streams the model's eval assigns to GDisj / GConj, and never panic *)
 Theorem C03_code_disj_conj_are_eval : forall ds uf f g1 g2 e st r,
-  (StreamGen.gs_Disj f ds uf (fun a => eval ds uf g1 e a, fun th => th) (fun a => eval ds uf g2 e a, fun th => th) (Some st) = GoLite.Ret r ->
+  (StreamGen.gs_Disj f ds uf (StreamOpsSpec.model_goal ds uf g1 e) (StreamOpsSpec.model_goal ds uf g2 e) (Some st) = GoLite.Ret r ->
    r = eval ds uf (GDisj g1 g2) e st) /\
-  (StreamGen.gs_Conj f ds uf (fun a => eval ds uf g1 e a, fun th => th) (fun a => eval ds uf g2 e a, fun th => TBind th g2 e) (Some st) = GoLite.Ret r ->
+  (StreamGen.gs_Conj f ds uf (StreamOpsSpec.model_goal ds uf g1 e) (StreamOpsSpec.model_goal ds uf g2 e) (Some st) = GoLite.Ret r ->
    r = eval ds uf (GConj g1 g2) e st).
 Proof. exact (fun ds uf f g1 g2 e st r => conj (StreamOpsSpec.gs_Disj_is_eval ds uf f g1 g2 e st r) (StreamOpsSpec.gs_Conj_is_eval ds uf f g1 g2 e st r)). Qed.
 Print Assumptions C03_code_disj_conj_are_eval.
 
+(* Zzz (micro/stream.go) and CallFresh (micro/fresh.go) as translated return the streams eval assigns to GZzz / GFresh:
+   a suspension of the goal at the state, not run; the goal applied to the variable numbered by the counter, on the state
+   with the counter advanced by one and the substitution untouched *)
+Theorem C03_code_zzz_fresh_are_eval : forall ds uf g e st,
+  StreamGen.gs_Zzz ds uf (StreamOpsSpec.model_goal ds uf g e) (Some st) = GoLite.Ret (eval ds uf (GZzz g) e st) /\
+  StreamGen.gs_CallFresh ds uf (fun v => StreamOpsSpec.model_goal ds uf g (v :: e)) (Some st) = GoLite.Ret (eval ds uf (GFresh g) e st).
+Proof. exact (fun ds uf g e st => conj (StreamOpsSpec.gs_Zzz_is_eval ds uf g e st) (StreamOpsSpec.gs_CallFresh_is_eval ds uf g e st)). Qed.
+Print Assumptions C03_code_zzz_fresh_are_eval.
+
 Theorem C03_code_disj_conj_return : forall ds uf B f g1 g2 st,
-  StreamOpsSpec.ends_err (fst g1 st) = false ->
-  ((StreamOpsSpec.spine (fst g1 st) < f)%nat -> StreamGen.gs_Disj f ds uf g1 g2 (Some st) = GoLite.Ret (mplus (fst g1 st) (fst g2 st))) /\
-  ((forall a, In a (StreamOpsSpec.heads (fst g1 st)) -> StreamOpsSpec.ends_err (fst g2 a) = false /\ (StreamOpsSpec.spine (fst g2 a) < B)%nat) ->
-   (StreamOpsSpec.spine (fst g1 st) + B < f)%nat -> StreamGen.gs_Conj f ds uf g1 g2 (Some st) = GoLite.Ret (bindk (fst g2) (snd g2) (fst g1 st))) /\
+  StreamOpsSpec.ends_err (GoLiteS.sg_run g1 st) = false ->
+  ((StreamOpsSpec.spine (GoLiteS.sg_run g1 st) < f)%nat -> StreamGen.gs_Disj f ds uf g1 g2 (Some st) = GoLite.Ret (mplus (GoLiteS.sg_run g1 st) (GoLiteS.sg_run g2 st))) /\
+  ((forall a, In a (StreamOpsSpec.heads (GoLiteS.sg_run g1 st)) -> StreamOpsSpec.ends_err (GoLiteS.sg_run g2 a) = false /\ (StreamOpsSpec.spine (GoLiteS.sg_run g2 a) < B)%nat) ->
+   (StreamOpsSpec.spine (GoLiteS.sg_run g1 st) + B < f)%nat -> StreamGen.gs_Conj f ds uf g1 g2 (Some st) = GoLite.Ret (bindk (GoLiteS.sg_run g2) (GoLiteS.sg_bind g2) (GoLiteS.sg_run g1 st))) /\
   StreamGen.gs_Disj f ds uf g1 g2 (Some st) <> GoLite.Panic /\ StreamGen.gs_Conj f ds uf g1 g2 (Some st) <> GoLite.Panic.
 Proof. exact (fun ds uf B f g1 g2 st He => conj (StreamOpsSpec.gs_Disj_complete ds uf f g1 g2 st He)
                (conj (StreamOpsSpec.gs_Conj_complete ds uf B f g1 g2 st He) (StreamOpsSpec.gs_ctors_never_panic ds uf f g1 g2 st))). Qed.
